@@ -255,6 +255,10 @@ def run(tier, seed):
                 # and for one world of the extended build; sampled elsewhere
                 full = kind == "projc" or (kind == "extnd" and wi == 0)
                 g, m = tiny(w, rng, not full, nlong=1 if (kind == "projc" and wi == 0) else 0)
+                if full:        # one pass per exhaustive world keeps the shards (and the memory of 16 TLC processes) small
+                    part("w8p8-%s-grp-%d" % (kind, wi), cfg, g, bdir)
+                    part("w8p8-%s-mul-%d" % (kind, wi), cfg, m, bdir)
+                    continue
             G += g
             M += m
         if quick:
